@@ -188,6 +188,228 @@ def _find_exact(hay, needle, base, which, what, allow_many=False):
   return [(base + m.start(), base + m.end())]
 
 
+def _one_directive(src, toks, s, e, kwi, kw, body_open, start, end, path, name, arg, btxt, edits, rules_used, attrs):
+  if name == 'ret':
+    if kw != 'fn':
+      raise ExtractError('@ret on non-fn')
+    # find `->` at depth 0 between param list and body
+    k = kwi + 2
+    # skip generics
+    pl = None
+    depth_angle = 0
+    while k < body_open:
+      if toks[k][1] == '(' and depth_angle == 0:
+        pl = k
+        break
+      if toks[k][1] == '<':
+        depth_angle += 1
+      if toks[k][1] == '>':
+        depth_angle -= 1
+      k += 1
+    pc = match_close(toks, pl)
+    k = pc + 1
+    if not (toks[k][1] == '-' and toks[k + 1][1] == '>'):
+      raise ExtractError('@ret: fn %s has no return type' % path)
+    ty_s = toks[k + 2][2]
+    m = k + 2
+    depth = 0
+    while m < body_open:
+      if toks[m][0] == 'id' and toks[m][1] == 'where' and depth == 0:
+        break
+      if toks[m][1] in '([<':
+        depth += 1
+      if toks[m][1] in ')]>' and not (toks[m][1] == '>' and toks[m - 1][1] == '-'):
+        depth -= 1
+      m += 1
+    ty_e = toks[m - 1][3]
+    edits.append(Edit(ty_s, 0, '(%s: ' % arg.strip(), 'R8 ret'))
+    edits.append(Edit(ty_e, 0, ')', 'R8 ret'))
+    rules_used.add('R8')
+  elif name == 'contract':
+    if kw != 'fn':
+      raise ExtractError('@contract on non-fn')
+    edits.append(Edit(toks[body_open][2], 0, '\n' + btxt, 'R8 contract'))
+    rules_used.add('R8')
+  elif name == 'loop':
+    parts = arg.split()
+    kth = int(parts[0])
+    itname = None
+    suffix = None
+    for p in parts[1:]:
+      if p.startswith('iter='):
+        itname = p[5:]
+      if p.startswith('suffix='):
+        suffix = p[7:]
+    loops = [m for m in range(body_open + 1, e) if toks[m][0] == 'id' and toks[m][1] in ('for', 'while', 'loop')
+             and not (toks[m][1] == 'for' and toks[m + 1][1] == '<')]
+    if kth >= len(loops):
+      raise ExtractError('anchor lost: loop %d of %s (has %d loops)' % (kth, path, len(loops)))
+    lk = loops[kth]
+    lb = first_brace_at_depth0(toks, lk + 1)
+    if lb is None:
+      raise ExtractError('loop %d of %s: no body' % (kth, path))
+    if itname:
+      if toks[lk][1] != 'for':
+        raise ExtractError('iter= on non-for loop')
+      m = lk + 1
+      depth = 0
+      while m < lb:
+        if toks[m][1] in '([':
+          depth += 1
+        if toks[m][1] in ')]':
+          depth -= 1
+        if toks[m][0] == 'id' and toks[m][1] == 'in' and depth == 0:
+          break
+        m += 1
+      if m >= lb:
+        raise ExtractError('for loop without `in`')
+      edits.append(Edit(toks[m][3], 0, ' %s:' % itname, 'R8 ghost iterator name'))
+    if suffix:
+      # R9: `for x in EXPR` over a reference to a std collection written as std defines it (`EXPR.iter()`)
+      if suffix not in ('.iter()',):
+        raise ExtractError('unsupported loop suffix %r' % suffix)
+      edits.append(Edit(toks[lb - 1][3], 0, suffix, 'R9 for-loop iterable %s' % suffix))
+      rules_used.add('R9')
+    edits.append(Edit(toks[lb][2], 0, '\n' + btxt, 'R8 loop %d' % kth))
+    rules_used.add('R8')
+  elif name == 'dropnested':
+    # R3: a nested helper fn is removed from the body; its call sites must be @replace'd by a stub
+    nm = arg.strip().split()[-1]
+    hit = [m for m in range(body_open + 1, e) if toks[m][0] == 'id' and toks[m][1] == 'fn' and toks[m + 1][1] == nm]
+    if len(hit) != 1:
+      raise ExtractError('anchor lost: nested fn %s in %s' % (nm, path))
+    nb = first_brace_at_depth0(toks, hit[0] + 2)
+    nc = match_close(toks, nb)
+    edits.append(Edit(toks[hit[0]][2], toks[nc][3] - toks[hit[0]][2], '', 'R3 drop nested fn %s' % nm))
+    rules_used.add('R3')
+  elif name == 'letchain':
+    # R5: `if A && let P = E { B }`  ==>  `if A { if let P = E { B } }`   (refused when an else follows)
+    (a0, b0), = _find_exact(src[start:end], arg.strip(), start, None, path)
+    cond = src[a0:b0]
+    if not cond.startswith('if ') or ' && let ' not in cond:
+      raise ExtractError('@letchain: %r is not of the form `if A && let P = E`' % cond)
+    # token index of the block's opening brace
+    ob = None
+    for m in range(kwi, e + 1):
+      if toks[m][2] >= b0 and toks[m][1] == '{':
+        ob = m
+        break
+    if ob is None or src[b0:toks[ob][2]].strip() != '':
+      raise ExtractError('@letchain: no block directly after the condition')
+    cb = match_close(toks, ob)
+    if cb + 1 <= e and toks[cb + 1][0] == 'id' and toks[cb + 1][1] == 'else':
+      raise ExtractError('@letchain: an else branch follows; the desugaring would change meaning')
+    head, _, tail = cond.partition(' && let ')
+    edits.append(Edit(a0, b0 - a0, head + ' { if let ' + tail, 'R5 let-chain'))
+    edits.append(Edit(toks[cb][3], 0, ' }', 'R5 let-chain close'))
+    rules_used.add('R5')
+  elif name in ('loopstart', 'loopend'):
+    kth = int(arg.split()[0])
+    loops = [m for m in range(body_open + 1, e) if toks[m][0] == 'id' and toks[m][1] in ('for', 'while', 'loop')
+             and not (toks[m][1] == 'for' and toks[m + 1][1] == '<')]
+    if kth >= len(loops):
+      raise ExtractError('anchor lost: loop %d of %s (has %d loops)' % (kth, path, len(loops)))
+    lb = first_brace_at_depth0(toks, loops[kth] + 1)
+    if lb is None:
+      raise ExtractError('loop %d of %s: no body' % (kth, path))
+    lc = match_close(toks, lb)
+    if name == 'loopstart':
+      edits.append(Edit(toks[lb][3], 0, '\n' + btxt, 'R8 loopstart %d' % kth))
+    else:
+      edits.append(Edit(toks[lc][2], 0, btxt, 'R8 loopend %d' % kth))
+    rules_used.add('R8')
+  elif name == 'beforetail':
+    # before the tail expression of the fn body (= after the last `;` or block at depth 1)
+    if kw != 'fn':
+      raise ExtractError('@beforetail on non-fn')
+    m = body_open + 1
+    last = toks[body_open][3]
+    while m < e:
+      t = toks[m]
+      if t[0] == 'punct' and t[1] in '([{':
+        c = match_close(toks, m)
+        if t[1] == '{':
+          last = toks[c][3]
+        m = c + 1
+        continue
+      if t[0] == 'punct' and t[1] == ';':
+        last = t[3]
+      m += 1
+    edits.append(Edit(last, 0, '\n' + btxt, 'R8 beforetail'))
+    rules_used.add('R8')
+  elif name == 'atend':
+    if kw != 'fn':
+      raise ExtractError('@atend on non-fn')
+    edits.append(Edit(toks[e][2], 0, btxt, 'R8 atend'))
+    rules_used.add('R8')
+  elif name in ('after', 'before'):
+    which = None
+    m = re.match(r'#(\d+)\s+(.*)$', arg)
+    if m:
+      which, arg = int(m.group(1)), m.group(2)
+    (a, b), = _find_exact(src[start:end], arg.strip(), start, which, path)
+    pos = b if name == 'after' else a
+    edits.append(Edit(pos, 0, '\n' + btxt if name == 'after' else btxt, 'R8 %s %r' % (name, arg.strip())))
+    rules_used.add('R8')
+  elif name in ('replace', 'replace*'):
+    spec, _, why = arg.partition(' ## ')
+    old, sep, new = spec.partition(' => ')
+    if not sep:
+      raise ExtractError('bad @replace %r' % arg)
+    rule = why.strip().split(':')[0].strip() if why.strip() else ''
+    if not re.match(r'R[0-9]+$', rule):
+      raise ExtractError('@replace without a named rule: %r' % arg)
+    rules_used.add(rule)
+    for a, b in _find_exact(src[start:end], old.strip(), start, None, path, allow_many=(name == 'replace*')):
+      edits.append(Edit(a, b - a, new.strip(), '%s %r' % (rule, old.strip())))
+  elif name == 'fields':
+    if kw != 'struct':
+      raise ExtractError('@fields on non-struct')
+    keep = [f.strip() for f in arg.split(',') if f.strip()]
+    b = first_brace_at_depth0(toks, kwi + 2)
+    c = match_close(toks, b)
+    # split fields at depth-0 commas
+    fields = []
+    k = b + 1
+    fs = k
+    depth = 0
+    while k <= c:
+      t = toks[k]
+      if k == c or (t[1] == ',' and depth == 0 and t[0] == 'punct'):
+        if k > fs:
+          fields.append((fs, k))
+        fs = k + 1
+      elif t[0] == 'punct' and t[1] in '([{<':
+        depth += 1
+      elif t[0] == 'punct' and t[1] in ')]}>' and not (t[1] == '>' and toks[k - 1][1] == '-'):
+        depth -= 1
+      k += 1
+    seen = set()
+    for fs, fe in fields:
+      # field name = id before ':' (skip attributes `#[..]` and pub)
+      m = fs
+      while toks[m][1] == '#':
+        m = match_close(toks, m + 1) + 1
+      while toks[m][0] == 'id' and toks[m][1] == 'pub':
+        m += 1
+        if toks[m][1] == '(':
+          m = match_close(toks, m) + 1
+      fname = toks[m][1]
+      if fname in keep:
+        seen.add(fname)
+      else:
+        stop = toks[fe][3] if fe < c else toks[fe - 1][3]
+        # delete from field start to after comma
+        edits.append(Edit(toks[fs][2], stop - toks[fs][2], '', 'R6 drop field %s' % fname))
+    if seen != set(keep):
+      raise ExtractError('anchor lost: struct fields %s not found in %s' % (sorted(set(keep) - seen), path))
+    rules_used.add('R6')
+  elif name == 'attr':
+    attrs.append(arg.strip())
+  else:
+    raise ExtractError('unknown directive @%s' % name)
+
+
 def extract_item(repo, relfile, path, subs, rules_used):
   """Return (text, first_repo_line, notes). `subs` is the list of sub-directives [(name,arg,body_lines)]."""
   full = os.path.join(repo, relfile)
@@ -221,227 +443,22 @@ def extract_item(repo, relfile, path, subs, rules_used):
     if body_open is None or body_open > e:
       raise ExtractError('fn without body: %s' % path)
   attrs = []
+  lost = []
+  HINTS = ('after', 'before', 'atend', 'beforetail', 'loopstart', 'loopend')
   for name, arg, body in subs:
     btxt = ''.join(body)
-    if name == 'ret':
-      if kw != 'fn':
-        raise ExtractError('@ret on non-fn')
-      # find `->` at depth 0 between param list and body
-      k = kwi + 2
-      # skip generics
-      pl = None
-      depth_angle = 0
-      while k < body_open:
-        if toks[k][1] == '(' and depth_angle == 0:
-          pl = k
-          break
-        if toks[k][1] == '<':
-          depth_angle += 1
-        if toks[k][1] == '>':
-          depth_angle -= 1
-        k += 1
-      pc = match_close(toks, pl)
-      k = pc + 1
-      if not (toks[k][1] == '-' and toks[k + 1][1] == '>'):
-        raise ExtractError('@ret: fn %s has no return type' % path)
-      ty_s = toks[k + 2][2]
-      m = k + 2
-      depth = 0
-      while m < body_open:
-        if toks[m][0] == 'id' and toks[m][1] == 'where' and depth == 0:
-          break
-        if toks[m][1] in '([<':
-          depth += 1
-        if toks[m][1] in ')]>' and not (toks[m][1] == '>' and toks[m - 1][1] == '-'):
-          depth -= 1
-        m += 1
-      ty_e = toks[m - 1][3]
-      edits.append(Edit(ty_s, 0, '(%s: ' % arg.strip(), 'R8 ret'))
-      edits.append(Edit(ty_e, 0, ')', 'R8 ret'))
-      rules_used.add('R8')
-    elif name == 'contract':
-      if kw != 'fn':
-        raise ExtractError('@contract on non-fn')
-      edits.append(Edit(toks[body_open][2], 0, '\n' + btxt, 'R8 contract'))
-      rules_used.add('R8')
-    elif name == 'loop':
-      parts = arg.split()
-      kth = int(parts[0])
-      itname = None
-      suffix = None
-      for p in parts[1:]:
-        if p.startswith('iter='):
-          itname = p[5:]
-        if p.startswith('suffix='):
-          suffix = p[7:]
-      loops = [m for m in range(body_open + 1, e) if toks[m][0] == 'id' and toks[m][1] in ('for', 'while', 'loop')
-               and not (toks[m][1] == 'for' and toks[m + 1][1] == '<')]
-      if kth >= len(loops):
-        raise ExtractError('anchor lost: loop %d of %s (has %d loops)' % (kth, path, len(loops)))
-      lk = loops[kth]
-      lb = first_brace_at_depth0(toks, lk + 1)
-      if lb is None:
-        raise ExtractError('loop %d of %s: no body' % (kth, path))
-      if itname:
-        if toks[lk][1] != 'for':
-          raise ExtractError('iter= on non-for loop')
-        m = lk + 1
-        depth = 0
-        while m < lb:
-          if toks[m][1] in '([':
-            depth += 1
-          if toks[m][1] in ')]':
-            depth -= 1
-          if toks[m][0] == 'id' and toks[m][1] == 'in' and depth == 0:
-            break
-          m += 1
-        if m >= lb:
-          raise ExtractError('for loop without `in`')
-        edits.append(Edit(toks[m][3], 0, ' %s:' % itname, 'R8 ghost iterator name'))
-      if suffix:
-        # R9: `for x in EXPR` over a reference to a std collection written as std defines it (`EXPR.iter()`)
-        if suffix not in ('.iter()',):
-          raise ExtractError('unsupported loop suffix %r' % suffix)
-        edits.append(Edit(toks[lb - 1][3], 0, suffix, 'R9 for-loop iterable %s' % suffix))
-        rules_used.add('R9')
-      edits.append(Edit(toks[lb][2], 0, '\n' + btxt, 'R8 loop %d' % kth))
-      rules_used.add('R8')
-    elif name == 'dropnested':
-      # R3: a nested helper fn is removed from the body; its call sites must be @replace'd by a stub
-      nm = arg.strip().split()[-1]
-      hit = [m for m in range(body_open + 1, e) if toks[m][0] == 'id' and toks[m][1] == 'fn' and toks[m + 1][1] == nm]
-      if len(hit) != 1:
-        raise ExtractError('anchor lost: nested fn %s in %s' % (nm, path))
-      nb = first_brace_at_depth0(toks, hit[0] + 2)
-      nc = match_close(toks, nb)
-      edits.append(Edit(toks[hit[0]][2], toks[nc][3] - toks[hit[0]][2], '', 'R3 drop nested fn %s' % nm))
-      rules_used.add('R3')
-    elif name == 'letchain':
-      # R5: `if A && let P = E { B }`  ==>  `if A { if let P = E { B } }`   (refused when an else follows)
-      (a0, b0), = _find_exact(src[start:end], arg.strip(), start, None, path)
-      cond = src[a0:b0]
-      if not cond.startswith('if ') or ' && let ' not in cond:
-        raise ExtractError('@letchain: %r is not of the form `if A && let P = E`' % cond)
-      # token index of the block's opening brace
-      ob = None
-      for m in range(kwi, e + 1):
-        if toks[m][2] >= b0 and toks[m][1] == '{':
-          ob = m
-          break
-      if ob is None or src[b0:toks[ob][2]].strip() != '':
-        raise ExtractError('@letchain: no block directly after the condition')
-      cb = match_close(toks, ob)
-      if cb + 1 <= e and toks[cb + 1][0] == 'id' and toks[cb + 1][1] == 'else':
-        raise ExtractError('@letchain: an else branch follows; the desugaring would change meaning')
-      head, _, tail = cond.partition(' && let ')
-      edits.append(Edit(a0, b0 - a0, head + ' { if let ' + tail, 'R5 let-chain'))
-      edits.append(Edit(toks[cb][3], 0, ' }', 'R5 let-chain close'))
-      rules_used.add('R5')
-    elif name in ('loopstart', 'loopend'):
-      kth = int(arg.split()[0])
-      loops = [m for m in range(body_open + 1, e) if toks[m][0] == 'id' and toks[m][1] in ('for', 'while', 'loop')
-               and not (toks[m][1] == 'for' and toks[m + 1][1] == '<')]
-      if kth >= len(loops):
-        raise ExtractError('anchor lost: loop %d of %s (has %d loops)' % (kth, path, len(loops)))
-      lb = first_brace_at_depth0(toks, loops[kth] + 1)
-      if lb is None:
-        raise ExtractError('loop %d of %s: no body' % (kth, path))
-      lc = match_close(toks, lb)
-      if name == 'loopstart':
-        edits.append(Edit(toks[lb][3], 0, '\n' + btxt, 'R8 loopstart %d' % kth))
-      else:
-        edits.append(Edit(toks[lc][2], 0, btxt, 'R8 loopend %d' % kth))
-      rules_used.add('R8')
-    elif name == 'beforetail':
-      # before the tail expression of the fn body (= after the last `;` or block at depth 1)
-      if kw != 'fn':
-        raise ExtractError('@beforetail on non-fn')
-      m = body_open + 1
-      last = toks[body_open][3]
-      while m < e:
-        t = toks[m]
-        if t[0] == 'punct' and t[1] in '([{':
-          c = match_close(toks, m)
-          if t[1] == '{':
-            last = toks[c][3]
-          m = c + 1
-          continue
-        if t[0] == 'punct' and t[1] == ';':
-          last = t[3]
-        m += 1
-      edits.append(Edit(last, 0, '\n' + btxt, 'R8 beforetail'))
-      rules_used.add('R8')
-    elif name == 'atend':
-      if kw != 'fn':
-        raise ExtractError('@atend on non-fn')
-      edits.append(Edit(toks[e][2], 0, btxt, 'R8 atend'))
-      rules_used.add('R8')
-    elif name in ('after', 'before'):
-      which = None
-      m = re.match(r'#(\d+)\s+(.*)$', arg)
-      if m:
-        which, arg = int(m.group(1)), m.group(2)
-      (a, b), = _find_exact(src[start:end], arg.strip(), start, which, path)
-      pos = b if name == 'after' else a
-      edits.append(Edit(pos, 0, '\n' + btxt if name == 'after' else btxt, 'R8 %s %r' % (name, arg.strip())))
-      rules_used.add('R8')
-    elif name in ('replace', 'replace*'):
-      spec, _, why = arg.partition(' ## ')
-      old, sep, new = spec.partition(' => ')
-      if not sep:
-        raise ExtractError('bad @replace %r' % arg)
-      rule = why.strip().split(':')[0].strip() if why.strip() else ''
-      if not re.match(r'R[0-9]+$', rule):
-        raise ExtractError('@replace without a named rule: %r' % arg)
-      rules_used.add(rule)
-      for a, b in _find_exact(src[start:end], old.strip(), start, None, path, allow_many=(name == 'replace*')):
-        edits.append(Edit(a, b - a, new.strip(), '%s %r' % (rule, old.strip())))
-    elif name == 'fields':
-      if kw != 'struct':
-        raise ExtractError('@fields on non-struct')
-      keep = [f.strip() for f in arg.split(',') if f.strip()]
-      b = first_brace_at_depth0(toks, kwi + 2)
-      c = match_close(toks, b)
-      # split fields at depth-0 commas
-      fields = []
-      k = b + 1
-      fs = k
-      depth = 0
-      while k <= c:
-        t = toks[k]
-        if k == c or (t[1] == ',' and depth == 0 and t[0] == 'punct'):
-          if k > fs:
-            fields.append((fs, k))
-          fs = k + 1
-        elif t[0] == 'punct' and t[1] in '([{<':
-          depth += 1
-        elif t[0] == 'punct' and t[1] in ')]}>' and not (t[1] == '>' and toks[k - 1][1] == '-'):
-          depth -= 1
-        k += 1
-      seen = set()
-      for fs, fe in fields:
-        # field name = id before ':' (skip attributes `#[..]` and pub)
-        m = fs
-        while toks[m][1] == '#':
-          m = match_close(toks, m + 1) + 1
-        while toks[m][0] == 'id' and toks[m][1] == 'pub':
-          m += 1
-          if toks[m][1] == '(':
-            m = match_close(toks, m) + 1
-        fname = toks[m][1]
-        if fname in keep:
-          seen.add(fname)
-        else:
-          stop = toks[fe][3] if fe < c else toks[fe - 1][3]
-          # delete from field start to after comma
-          edits.append(Edit(toks[fs][2], stop - toks[fs][2], '', 'R6 drop field %s' % fname))
-      if seen != set(keep):
-        raise ExtractError('anchor lost: struct fields %s not found in %s' % (sorted(set(keep) - seen), path))
-      rules_used.add('R6')
-    elif name == 'attr':
-      attrs.append(arg.strip())
-    else:
-      raise ExtractError('unknown directive @%s' % name)
+    if name in HINTS or name in ('replace', 'replace*', 'loop'):
+      # proof hints, stub replacements and loop invariants are anchored on statements of the body; when
+      # the anchor is gone (the code changed) the directive is skipped and recorded, and Verus decides
+      # without it.  A failure in such a function is reported as degraded (see vx/run.py).
+      try:
+        n0 = len(edits)
+        _one_directive(src, toks, s, e, kwi, kw, body_open, start, end, path, name, arg, btxt, edits, rules_used, attrs)
+      except ExtractError as ex:
+        del edits[n0:]
+        lost.append('%s %s: %s' % (name, arg[:60], ex))
+      continue
+    _one_directive(src, toks, s, e, kwi, kw, body_open, start, end, path, name, arg, btxt, edits, rules_used, attrs)
   # R1 edits may be inside regions deleted by R6: drop contained edits
   dels = [(x.pos, x.pos + x.dele) for x in edits if x.what.startswith('R6')]
   edits = [x for x in edits if x.what.startswith('R6') or not any(a <= x.pos and x.pos + x.dele <= b for a, b in dels)]
@@ -450,7 +467,7 @@ def extract_item(repo, relfile, path, subs, rules_used):
   text = ''.join(pieces)
   first_line = src.count('\n', 0, start) + 1
   sha = hashlib.sha256(src[start:end].encode()).hexdigest()[:16]
-  return ('\n'.join(attrs) + '\n' if attrs else '') + text, first_line, sha, [x.what for x in edits]
+  return ('\n'.join(attrs) + '\n' if attrs else '') + text, first_line, sha, [x.what for x in edits], lost
 
 
 def compose(unit_path, repo):
@@ -488,12 +505,12 @@ def compose(unit_path, repo):
         i += 1
       if i >= n:
         raise ExtractError('unterminated //@extract %s' % spec)
-      text, first_line, sha, applied = extract_item(repo, relfile.strip(), path.strip(), subs, rules)
+      text, first_line, sha, applied, lost = extract_item(repo, relfile.strip(), path.strip(), subs, rules)
       gl0 = len(out) + 1
       seg = text.split('\n')
       out.extend(seg)
       items.append({'file': relfile.strip(), 'path': path.strip(), 'repo_line': first_line, 'sha16': sha,
-                    'gen_lines': [gl0, gl0 + len(seg) - 1], 'edits': applied})
+                    'gen_lines': [gl0, gl0 + len(seg) - 1], 'edits': applied, 'lost_anchors': lost})
       i += 1
       continue
     out.append(ln)
